@@ -128,7 +128,7 @@ CLAIMS["C19"] = (
 )
 
 CLAIMS["C10"] = (
-    "own-arithmetic evaluation of the sum-product and min-sum check updates on three Tanner graphs (tables computed by the checker; exact and series arctanh; a zeros row), structural typestate of the Tanner-graph bookkeeping (join-last-group rule), closed-form matching with own-arithmetic evaluation of each update on literal points, tensor-rank inference (extrinsic axis reduced, never flattened), homogeneity-degree abstract interpretation (no saturation on the min-sum / Wagner decision paths), list-subscript lint",
+    "end-to-end own-arithmetic evaluation of the belief-propagation decoder on cycle-free graphs against the flooding schedule and the brute-force posterior, own-arithmetic evaluation of the sum-product and min-sum check updates on three Tanner graphs (tables computed by the checker; exact and series arctanh; a zeros row), structural typestate of the Tanner-graph bookkeeping (join-last-group rule), closed-form matching with own-arithmetic evaluation of each update on literal points, tensor-rank inference (extrinsic axis reduced, never flattened), homogeneity-degree abstract interpretation (no saturation on the min-sum / Wagner decision paths), list-subscript lint",
     "Belief propagation, min-sum, Wagner and soft Reed-Muller decoders: degree groups in prep_edge_ind are runs of consecutive nodes (a node joins only the last group, the group key is the previous node's degree), so per-group messages concatenate in the node order that edge_order/cv_order assume; extrinsic sets are all (deg-1)-subsets of a node's edges, row-aligned by the flip; vc = posterior - cv, tanh(vc/2), product over the extrinsic axis, 2*atanh, marginal = channel LLR + incoming messages (schedule vc -> cv -> marginalise(channel input)), message bits at the weight-1 columns of G; min-sum = prod(sign)*min(abs) reduced over the extrinsic axis with rank-2 per-group results (rank inference), scaling/offset only under their configuration guards; min-sum messages are homogeneous of degree 1 inside the family's declared clipping range and nothing saturates the Wagner decision path; Wagner = sign decisions, even-parity test, flip of argmin|llr| of the failing block, first k positions; RM soft = per-group parity, minimum reliability, reliability-weighted vote. Decides these structural conditions, not marginals/ML optimality as values. The Tanner-graph tables of prep_edge_ind are tabulated on four parity-check matrices against their definitions, soft Reed-Muller decoding is evaluated on real words with checker-chosen partitions.",
     "Trusted: itertools.combinations order (lexicographic), torch gather/min/prod/flip semantics as summarised in props/c10.py, the checker's constant folder for the literal-point evaluations. Unknown shapes -> exit 2.",
     "DESIGN.md §2 C10",
